@@ -257,9 +257,9 @@ func (in *c12Inst) burst(els []c12Ev, opt c12BurstOpt) (out c12BurstOut) {
 			t0 := time.Now().UnixNano()
 			switch {
 			case a.env != nil:
-				in.vs.HandleEnvelope(in.ctx, *a.env)
+				in.call("envelope-in-burst", func() { in.vs.HandleEnvelope(in.ctx, *a.env) })
 			case a.tick:
-				in.vs.Cleanup()
+				in.call("cleanup-tick-in-burst", func() { in.vs.Cleanup() })
 			case a.inv != nil:
 				in.tell(a.inv, a.err) // un-gated return: t0/t1 of the bookkeeping are taken by the hooks
 				return
@@ -484,11 +484,15 @@ type c12ConcResult struct {
 	ConcLeaves  int // real-like mode: leaves of a receiver being served (its transfer unwinds while the read loop re-dispatches)
 	OptsAtFail  string
 	CandsAtFail int
+	Skipped     bool // not run: too many senders had already stopped handling events
 }
 
 func (w *c12Worker) runConc(c *c12ConcCase) c12ConcResult {
 	var r c12ConcResult
 	for attempt := 0; attempt < 3; attempt++ {
+		if c12Abandoned() {
+			return c12ConcResult{Case: c, Skipped: true}
+		}
 		if atomic.LoadInt64(&c12WatchdogRetries) > c12WatchdogBudget {
 			return c12ConcResult{Case: c, Inconcl: "exploration abandoned: quiescence watchdog fired too often"}
 		}
@@ -528,6 +532,12 @@ func (w *c12Worker) runConcOnce(c *c12ConcCase) c12ConcResult {
 				res.Truncated = true
 				break
 			}
+			if c12Abandoned() && in.stuckWhat() == "" {
+				// another sender's canary verdict came in while this burst waited: do not start more
+				in.endBurst(&bo)
+				res.Truncated = true
+				break
+			}
 		} else {
 			if c.Mode.Auto && step[0].K == c12Leave && cands[0].Cls[step[0].P] == c12Xfer {
 				res.ConcLeaves++
@@ -543,6 +553,21 @@ func (w *c12Worker) runConcOnce(c *c12ConcCase) c12ConcResult {
 		why := bo.Inconcl
 		if why == "" {
 			why = in.quiesce()
+		}
+		if what := in.stuckWhat(); what != "" {
+			if isBurst {
+				in.endBurst(&bo)
+			}
+			atomic.StoreInt32(&in.clockPerturb, 0)
+			res.FailAt = i + 1
+			res.FailShape, res.FailQueue = shape, qlen
+			in.wmu.Lock()
+			dump := in.stuckDump
+			in.wmu.Unlock()
+			res.Viols = []c12Viol{{Kind: "sender-stops-handling-events", Detail: fmt.Sprintf("%s had not returned after %s and still had not %s later, while a fresh sender of the same configuration went through join, accept, cleanup tick, leave and a state snapshot in between: the sender no longer handles events. Goroutines inside the sender:\n%s", what, c12DeliverWatchdog, c12DeliverWatchdog/2, dump)}}
+			res.ModelStr = cands[0].String()
+			res.OptsAtFail = c.Opts[i].String()
+			break
 		}
 		if isBurst {
 			in.endBurst(&bo)
@@ -919,6 +944,10 @@ func (x *c12Explorer) concurrent(rng *vk.Rng, nRandom, reps int) *c12ConcStats {
 			x.withMode(c12Mode{}, func(w *c12Worker) {
 				c := cases[idx[k]]
 				r := w.runConc(c)
+				if r.Skipped {
+					atomic.AddInt64(&c12SkippedAfterStuck, 1)
+					return
+				}
 				e.R.Eval()
 				if r.Inconcl != "" {
 					e.R.Inconcl(r.Inconcl)
